@@ -66,27 +66,59 @@ class filler_gcc:
         yield "child-cursor-shifted-by-top", opt_eq_shift(result, cc, 0, top)
 
 
-@contract(FI + "Filler.render", property=("C09", "C01"), inline=INL, replayable=False)
+def _filler_render_child(old, a):
+    """(child widget, size it is rendered at, its canvas) for Filler.render(a.size, a.focus): shared by the clauses
+    and by the callee-side `effects`."""
+    W = PROTOCOLS["Widget"]
+    w = old._original_widget
+    top, bottom = FV_CONTRACT.spec_value(old, size=a.size, focus=a.focus)
+    cs = filler_child_size(old, a.size, top, bottom)
+    child = W.call_quiet(cur(), w, "render", dict(size=cs, focus=a.focus))
+    return w, top, bottom, cs, child
+
+
+@contract(FI + "Filler.render", property=("C09", "C01", "C08"), inline=INL, replayable=False)
 class filler_render:
+    """No fit precondition: a child that asks for more rows than the box has (`Frame.render` wraps a header / footer
+    that does not fit in a Filler) is rendered in full and cut to the box -- from the top, except that the window moves
+    down just far enough to keep the child's cursor row."""
     self_shape = FILLER
     params = dict(size=Union(Tup(Int, Int), Tup(Int)), focus=Bool)
     result = CCANVAS
+    raises = ()
 
     def requires(s, a):
-        return _filler_requires(s, a, a.focus)
+        return both(filler_wf(s), size_ok(a.size), implies(len(a.size) == 1, neg(s.height_type == "relative")))
 
     def ensures(old, s, a, r):
-        W = PROTOCOLS["Widget"]
-        w = old._original_widget
-        maxcol, maxrow, _req = filler_geometry(old, a.size, a.focus)
+        maxcol, maxrow, req = filler_geometry(old, a.size, a.focus)
         yield "size", both(r.ncols == maxcol, r.nrows == maxrow)
-        top, bottom = FV_CONTRACT.spec_value(old, size=a.size, focus=a.focus)
-        cs = filler_child_size(old, a.size, top, bottom)
+        w, top, bottom, cs, child = _filler_render_child(old, a)
         rc = calls("render")
-        yield "child-rendered-once-at-its-size", both(len(rc) == 1, eq(rc[0][3]["size"], cs) if rc else False, eq(rc[0][3]["focus"], a.focus) if rc else False)
-        child = W.call_quiet(cur(), w, "render", dict(size=cs, focus=a.focus))
-        yield "cursor-is-childs-shifted-by-top", opt_eq_shift(r.cursor, child.cursor, 0, top)
-        yield "child-drawn-at-row-top", both(r.src == child.src, r.top_off == -top, r.left_off == 0)
+        # C08 (only the focus path is rendered with focus): the one child, once, with the filler's own focus flag
+        yield "child-rendered-once-at-its-size", both(len(rc) == 1, eq(rc[0][1], w) if rc else False, eq(rc[0][3]["size"], cs) if rc else False)
+        yield "child-focus-flag-is-the-fillers", eq(rc[0][3]["focus"], a.focus) if rc else False
+        yield "child-drawn-unshifted-sideways", both(r.src == child.src, r.left_off == 0)
+        if req + old.top + old.bottom <= maxrow:  # the fit case of the C09 statement
+            yield "cursor-is-childs-shifted-by-top", opt_eq_shift(r.cursor, child.cursor, 0, top)
+            yield "child-drawn-at-row-top", r.top_off == -top
+        elif req > maxrow:  # too tall (only a flow child can be: a box child is handed the rows there are)
+            hidden = 0
+            if not is_none(child.cursor) and maxrow > 0 and val(child.cursor)[1] >= maxrow:
+                hidden = val(child.cursor)[1] - maxrow + 1
+            yield "too-tall-child-cut-to-the-box-keeping-its-cursor-row", r.top_off == hidden
+            if maxrow > 0:
+                yield "too-tall-cursor-is-childs-in-the-window", opt_eq_shift(r.cursor, child.cursor, 0, -hidden)
+            else:
+                yield "no-rows-no-cursor", is_none(r.cursor)
+        else:  # the margins give way, the child keeps its rows
+            yield "cursor-is-childs-shifted-by-top", opt_eq_shift(r.cursor, child.cursor, 0, top)
+            yield "child-drawn-at-row-top", r.top_off == -top
+
+    def effects(old, s, a, r):
+        # callee use (Frame.render): the call this contract proves is made on the child, in the caller's ghost trace
+        w, _top, _bottom, cs, child = _filler_render_child(old, a)
+        cur().event("call", w, "render", dict(size=cs, focus=a.focus), child)
 
 
 def _fwd_contract(method, extra_params, result_shape):
@@ -400,3 +432,29 @@ class padding_keypress:
         yield "offered-once-with-the-rendered-size", both(len(kp) == 1, eq(kp[0][3]["size"], cs) if kp else False, eq(kp[0][3]["key"], a.key) if kp else False)
         if kp:
             yield "result-is-childs", opt_same(result, kp[0][4])
+
+
+# ============================================================================================ Filler(...) as built by Frame.render
+from urwid.widget.constants import VAlign as _VAlign  # noqa: E402
+
+
+@contract(FI + "Filler.__init__", property=("C09", "C08"), replayable=False,
+          inline=("urwid/widget/widget_decoration.py:WidgetDecoration.__init__", "urwid/widget/constants.py:normalize_valign", "urwid/widget/constants.py:normalize_height"))
+class filler_init:
+    """`Filler(body, valign)` with the default `height='pack'` and no margins -- the form `Frame.render` builds around a
+    header / footer that does not fit.  `constructs`: at a call site the new object is a FILLER with these fields."""
+    self_shape = FILLER
+    constructs = FILLER
+    ctor_params = ("body", "valign", "height", "min_height", "top", "bottom")
+    ctor_defaults = dict(valign="middle", height="pack", min_height=None, top=0, bottom=0)
+    params = dict(body=Opaque("Widget"), valign=Union(*[Const(v) for v in (_VAlign.TOP, _VAlign.MIDDLE, _VAlign.BOTTOM, "top", "middle", "bottom")]), height=Const("pack"), min_height=Opt(Int), top=Int, bottom=Int)
+    raises = ()
+
+    def requires(s, a):
+        return both(0 <= a.top, a.top < PARTMAX, 0 <= a.bottom, a.bottom < PARTMAX)
+
+    def ensures(old, s, a, result):
+        yield "wraps-the-body", eq(s._original_widget, a.body)
+        yield "aligned-as-asked", eq(s.valign_type, a.valign)
+        yield "a-flow-child-keeps-its-rows", both(s.height_type == "pack", is_none(s.min_height))
+        yield "margins-as-asked", both(s.top == a.top, s.bottom == a.bottom)
